@@ -9,6 +9,10 @@ tie:    translate/globals.py  (symbol tables of the compiled library -> Generate
         (no OpenMP): 2/4/8 std::threads, each with its own Stack, scalar + array programs, adjoints/tangents/Jacobians;
         results compared bitwise with the single-thread run; active_stack() sampled in stack-less threads; deterministic
         schedules on real threads compared line by line with the Lean machine.
+        Allocation faults: operator new[] wrapped (thread-local trigger), Stack constructors whose 1st/2nd/3rd array allocation
+        fails inside every workload and in the deterministic schedules (`nsf`); constructor order translated from Stack.h
+        (C12_ctor_order_generated, C12_failed_ctor_pointer_unchanged, refutation C12_swapped_ctor_order_dangles).  Growing stacks:
+        a -DADEPT_INITIAL_STACK_LENGTH=64 TSan build; std::thread callers in the g++ -fopenmp build (Jacobians with up to 9 dependents).
 oracle: bitwise solo/parallel comparison, the active_stack() samples, n_storage_objects() after join, ThreadSanitizer, and an
         exact python bookkeeping of the stack protocol (none of them uses the Lean model).
 """
@@ -18,8 +22,11 @@ import threadcommon as tc
 
 LEVEL = "proof"
 NS = "Adept.Threads."
+SMALL = "ADEPT_INITIAL_STACK_LENGTH=64"
 REQUIRED = ["C12_globals_accounted", "C12_hypothesis_generated", "C12_noninterference", "C12_noninterference_generated",
-            "C12_race_free", "C12_race_free_generated", "C12_active_only_in_activator", "C12_stackless_thread_reads_zero"]
+            "C12_race_free", "C12_race_free_generated", "C12_active_only_in_activator", "C12_stackless_thread_reads_zero",
+            "C12_ctor_order_generated", "C12_failed_ctor_pointer_unchanged", "C12_stack_constructible_after_failed_ctor",
+            "C12_swapped_ctor_order_dangles"]
 
 
 def cases(rng, n, thorough):
@@ -55,6 +62,18 @@ def run(ctx, replay):
     exe_omp = tc.build_omp()
     omp_cases = [(T, ws, min(rounds, 120)) for (T, ws, rounds) in cases(ctx.rng, 12 if thorough else 6, thorough)]
     tc.run_many(ctx, exe_omp, "openmp-team", "c12omp", omp_cases, workers=2)
+    # std::threads (not a team) in the OpenMP build: each caller's reverse/forward Jacobian (up to 9 dependents, several blocks)
+    # may start its own OpenMP team while the other callers do the same; results against the solo run
+    omp_thr = [(T, ws, min(rounds, 150)) for (T, ws, rounds) in cases(ctx.rng, 12 if thorough else 6, thorough)]
+    tc.run_many(ctx, exe_omp, "openmp-team", "c12", omp_thr, workers=2)
+    # stacks that GROW: the library and the driver built with a small ADEPT_INITIAL_STACK_LENGTH, so every thread's recordings
+    # outgrow the initial buffers several times (grow_operation_stack / grow_statement_stack in all threads at once), under TSan
+    exe_small = tc.build(False, also=[SMALL])
+    small = [(T, ws, max(rounds, 60)) for (T, ws, rounds) in cases(ctx.rng, 18 if thorough else 6, thorough)]
+    tc.run_many(ctx, exe_small, "default+" + SMALL, "c12", small, grow=True)
+    ctx.notes["growing_stacks"] = ("%d ThreadSanitizer runs of a -D%s build (>= 60 rounds; the stacks outgrow their initial buffers, "
+                                   "checked from n_allocated_operations()); %d runs of std::thread callers in the g++ -fopenmp build "
+                                   "(Jacobians with 2..9 dependents, set_max_jacobian_threads 1 or 3)" % (18 if thorough else 6, SMALL, len(omp_thr)))
     # deterministic schedules on real threads vs the Lean machine (stack protocol, recording, private arrays)
     nsched = 400 if thorough else 120
     tc.run_sched_batch(ctx, exe, "default", "default", tc.sched_cases(ctx.rng, nsched, shared=False),
@@ -66,6 +85,12 @@ def run(ctx, replay):
                        "Stack ctor/activate/deactivate/destructor, recording, new_recording, private arrays) compared line by line with the "
                        "Lean machine and with an exact python bookkeeping; non-trivial = every run; distinct = different (build, threads, "
                        "workload seed, rounds) or schedule" % (nruns, 2000 if thorough else 600, nsched))
+    ctx.notes["allocation_faults"] = ("every c12/c12omp workload (solo and in its thread) runs Stack constructors whose 1st/2nd/3rd array "
+                                      "allocation fails (operator new[] wrapped, thread-local trigger): 2 before the thread owns a stack "
+                                      "(activating 3 of 4), 1 in each of the first 24 deactivated windows and 1 in 8 later, 1 while its own "
+                                      "stack is active, 1 after its destructor followed by a fresh Stack that records and differentiates; "
+                                      "oracle: active_stack() unchanged, later activations succeed, results equal the solo run; the "
+                                      "deterministic schedules draw `nsf` (faulted constructor, allocation 0..2) with weight 1/14")
     ctx.cov["exhaustive"] = False
     ctx.assumptions += [
         "PARTIAL: the theorems are about an abstract machine with atomic API steps and a footprint table; that the compiled library performs "
